@@ -247,6 +247,7 @@ def run(ch: Checker) -> None:
                      'announces chunked framing without the terminating chunk' % ', '.join('%s=%s' % kv for kv in f11.items() if 'body' in kv[0])[:120], p.describe())
     ch.check(bad11 is None and n11 > 0, 'C15.11', pb11, 'decoder complete => body taken', 'self.body = self.chunk.body on all %d path(s) that find the decoder complete' % n11,
              bad11[0] if bad11 else 'no path finds the chunk decoder complete', witness=bad11[1] if bad11 else None)
+    ch.import_rules('C02', {'C02.4': 'C15.12'}, 'parse(build(x)) has x\'s header map only if the packet builder writes every entry of the map, whatever its value')
     ch.import_rules('C06', {'C06.6': 'C15.8'}, 'parse(build(x)) has x\'s headers only if the builders do not write into a header map shared between messages')
     ch.import_rules('C03', {'C03.7': 'C15.9'}, 'the decoder agrees with a reference on every piecewise feed only if a live chunk decoder is never taken for absent')
     ch.import_rules('C03', {'C03.6': 'C15.10'}, 'parse() followed by build() reproduces a message only if the parser does not declare it complete while part of it is still unread')
